@@ -84,9 +84,9 @@ def mutants(fname, kinds):
     return out
 
 
-def run(cmd, env=None, timeout=3600):
+def run(cmd, env=None, timeout=3600, cwd=None):
     try:
-        p = subprocess.run(cmd, capture_output=True, text=True, env=env, timeout=timeout)
+        p = subprocess.run(cmd, capture_output=True, text=True, env=env, timeout=timeout, cwd=cwd)
         return p.returncode, p.stdout + p.stderr
     except subprocess.TimeoutExpired:
         return 124, 'timeout'
@@ -130,9 +130,11 @@ def main():
         except SyntaxError:
             verdict = 'invalid'
         if verdict is None:
-            rc, out = run(['/venv/bin/python', '-m', 'pytest', '-q', '-x', '-p', 'no:cacheprovider', 'test'], env=dict(os.environ, PYTHONPATH=os.path.join(repo, 'src')), timeout=600)
-            if rc != 0 and 'cwd' not in out[:0]:
+            rc, out = run(['/venv/bin/python', '-m', 'pytest', '-q', '-x', '-p', 'no:cacheprovider', 'test'], env=dict(os.environ, PYTHONPATH=os.path.join(repo, 'src')), timeout=600, cwd=repo)
+            if rc == 1:
                 verdict = 'killed-by-repo-tests'
+            elif rc != 0:
+                verdict = 'repo-tests-rc%d' % rc
         if verdict is None:
             verdict = 'SURVIVED'
             for c in CHECKS[m['file']]:
